@@ -464,7 +464,12 @@ func (mbox *MailboxView) staticNumSet(numSet imap.NumSet) imap.NumSet {
 		}
 		return static
 	case imap.UIDSet:
-		max := uint32(mbox.uidNext) - 1
+		// "*" is the UID of the last message, which may be lower than
+		// uidNext-1 if the most recent messages have been expunged
+		var max uint32
+		if n := len(mbox.l); n > 0 {
+			max = uint32(mbox.l[n-1].uid)
+		}
 		var static imap.UIDSet
 		for _, r := range numSet {
 			staticNumRange((*uint32)(&r.Start), (*uint32)(&r.Stop), max)
